@@ -8,6 +8,8 @@ R28.2 rename builds its edits from find_references of the same symbol table that
       start symbol / INITIAL in both, and every edit's new_text is the requested name.
 R28.3 collection is unconditional: a collecting call depends only on `?`, loop conditions and matches on the enum
       variants on the path to the identifier (not on AST-control decorations such as the cut operator).
+R28.4 kind / table pairing: the symbol kind under the cursor comes from the table its position was found in (never from a
+      lookup by name - the name spaces overlap), and every match arm on the kind consults only that kind's table.
 Fresh-name checks and 'nothing else changed' are value properties and NOT decided.
 """
 from ..callgraph import CallGraph
@@ -131,6 +133,8 @@ def check(ctx):
                   "crates/parol-ls/src/parol_ls_grammar.rs")
 
     r28_3(ctx, facts, calls)
+
+    r28_4(ctx, facts)
     # ---------------------------------------------------------------- R28.2
     rn = facts.body(G + "rename")
     pr = facts.body(G + "prepare_rename")
@@ -251,3 +255,103 @@ def r28_3(ctx, facts, calls):
                   "reference collection in %s is skipped depending on %s: occurrences of the symbol in such contexts are not "
                   "renamed" % (short(host.path), sorted(set(offenders))), where(host, host.line_of_block(site_blocks[0])))
     ctx.require_floor("R28.3", "collection_sites", n, 8)
+
+
+# ------------------------------------------------------------------------------------------------------------------ R28.4
+G = "parol_ls::parol_ls_grammar::ParolLsGrammar::"
+KIND = "parol_ls::parol_ls_grammar::SymbolDefsType"
+KIND_TABLE = {"NonTerminal": "non_terminal_definitions", "UserType": "user_type_definitions",
+              "ScannerState": "scanner_state_definitions", "Terminal": "terminal_type"}
+
+
+def _table_fields(place):
+    return [e[2] for e in (place or [])[1:] if isinstance(e, list) and e[0] == "f" and e[2] in KIND_TABLE.values()]
+
+
+def r28_4(ctx, facts):
+    """R28.4 kind / table pairing (added after seed C28-b).  Non-terminals, user types and scanner states live in separate name
+    spaces, so one identifier may denote several symbols; which one the cursor is on is known only from the table its position
+    was found in.  (a) producer: in ident_at_position every SymbolDefsType::V value is built in the closure that maps the hit of
+    `self.<TABLE[V]>.find_reference(position)`, and no kind is obtained from a call (e.g. a lookup by name); (b) consumer: in
+    every match on the kind (rename, ...) the arm for V reads no other table than TABLE[V]."""
+    from .. import cfg
+    from .common import closure_of_arg_any, only_via_edge
+    variants = [v["name"] for v in facts.adt(KIND)["variants"]]
+    if sorted(variants) != sorted(KIND_TABLE):
+        raise AnchorMissing("SymbolDefsType variants changed: %s (re-confirm the kind/table pairing)" % variants)
+    iap = facts.body(G + "ident_at_position")
+    fam = facts.family(iap)
+    paired = {}
+    for cl in fam:
+        aggs = [(rv[3], line) for bi, si, p, rv, line, mac in cl.assigns() if rv[0] == "agg" and rv[2] == KIND]
+        for v, line in aggs:
+            # the call that receives this closure
+            site = None
+            for B in fam:
+                for c in B.calls():
+                    if closure_of_arg_any(facts, B, c) is cl:
+                        site = (B, c)
+            tab = None
+            if site:
+                B, c = site
+                t = operand_term(B, c.args[0]) if c.args else ("unknown",)
+                if t[0] == "call" and (t[1].path or "").split("::")[-1] in ("find_reference", "find_reference_range"):
+                    tf = _table_fields(raw_operand_place(B, t[1].args[0]))
+                    tab = tf[-1] if tf else None
+            ok = site is not None and (site[1].path or "").split("::")[-1] == "map" and tab == KIND_TABLE[v]
+            paired[v] = paired.get(v, 0) + (1 if ok else 0)
+            ctx.check(ok, "R28.4", "ident_at_position|%s|kind-from-table" % v,
+                      "SymbolDefsType::%s is attached to the hit of %s.find_reference(position)" % (v, KIND_TABLE[v]),
+                      "SymbolDefsType::%s is attached to a hit of %s (expected the table %s): an identifier that exists in two "
+                      "name spaces is classified by the wrong table" % (v, tab or "no position lookup", KIND_TABLE[v]),
+                      where(cl, line))
+    missing = [v for v in variants if not paired.get(v)]
+    computed = []
+    for B in fam:
+        for c in B.calls():
+            if c.dest and len(c.dest) == 1 and KIND in B.local_ty(c.dest[0]) and not B.local_ty(c.dest[0]).startswith("std::option"):
+                computed.append((B, c))
+            elif c.dest and len(c.dest) == 1 and B.local_ty(c.dest[0]) == KIND:
+                computed.append((B, c))
+    ctx.check(not missing and not computed, "R28.4", "ident_at_position|kind-only-from-position-lookup",
+              "all four kinds come from the table the position was found in; no kind is computed by a call",
+              "ident_at_position obtains the symbol kind %s instead of from the table the cursor position was found in: a scanner "
+              "state that shares its name with a non-terminal is renamed as the non-terminal"
+              % ("from %s" % ", ".join(short(c.path or "?") for _b, c in computed) if computed else "for %s nowhere" % missing),
+              where(iap))
+    # consumers
+    n = 0
+    for b in facts.in_crate(LS):
+        if not b.path.startswith(G) and b.root_fn(facts).path[:len(G)] != G:
+            continue
+        for d in range(len(b.blocks)):
+            t = b.term(d)
+            if t[0] != "switch":
+                continue
+            is_kind = False
+            for s in b.stmts(d):
+                if s[0] == "a" and s[2][0] == "disc" and t[1][0] in ("c", "m") and t[1][1] == s[1]:
+                    if KIND in b.local_ty(s[2][1][0]):
+                        is_kind = True
+            if not is_kind:
+                continue
+            arms = {}
+            for v, tg in t[2]:
+                if isinstance(v, int) and v < len(variants):
+                    arms[variants[v]] = (v, tg)
+            if len(arms) < 2:
+                continue
+            for v, (vi, tg) in arms.items():
+                blocks = {x for x in cfg.reachable_from(b, tg, avoid_blocks=[d]) if only_via_edge(b, d, {vi}, x)}
+                foreign = set()
+                for bi, kind, p, line in all_places(b):
+                    if bi in blocks:
+                        for f in _table_fields(p):
+                            if f != KIND_TABLE[v]:
+                                foreign.add(f)
+                n += 1
+                ctx.check(not foreign, "R28.4", "%s|arm-%s|table" % (short(b.path), v),
+                          "the %s arm consults only %s" % (v, KIND_TABLE[v]),
+                          "the %s arm reads %s: references of another name space are edited" % (v, sorted(foreign)),
+                          where(b, b.line_of_block(tg)))
+    ctx.require_floor("R28.4", "kind_match_arms", n, 4)
